@@ -31,6 +31,7 @@ CHECKS = {
     },
     "C09": {
         "modules": ["rules_c09"],
+        "thorough_modules": ["rules_c09"],
         "explanation": "Site inventory over the MIR of every function reachable from the execution entry points (call graph with "
                        "closure attribution and class-hierarchy resolution of trait calls on generic parameters): arithmetic "
                        "Assert terminators (overflow, division by zero, bounds), calls into the may-panic API table (unwrap/expect, "
@@ -47,6 +48,7 @@ CHECKS = {
     },
     "C14": {
         "modules": ["rules_c14"],
+        "thorough_modules": ["rules_c14"],
         "explanation": "Same site inventory as C09, rooted at the parsing entry points (parse, parse_into_tree, TableDefinition::new, "
                        "TokenLocation::extract_near, error Display impls).",
         "trusted": ["rustc nightly MIR + trait resolution", "tables/may_panic_api.json", "reason-only rows of tables/discharged.json"],
